@@ -232,6 +232,36 @@ func ruleR16_2(r *Run) {
 					if callersHold(w, f, "mu") {
 						held = true
 					}
+					// … or by every caller that is not the start-up loader, which fills a database that is not yet
+					// published (initMemoryDB builds it and only then stores it into d.dbs)
+					if !held {
+						var byCallers func(fn *ssa.Function, depth int) bool
+						byCallers = func(fn *ssa.Function, depth int) bool {
+							sites, ok2 := 0, true
+							for _, cs := range callSitesOf(w)[fn] {
+								g := cs.Parent()
+								if strings.HasSuffix(w.fposFile(g), "_test.go") {
+									continue
+								}
+								sites++
+								if strings.Contains(g.Name(), "loadMemDB") || strings.Contains(g.Name(), "initMemoryDB") {
+									continue
+								}
+								if h, _ := heldAt(g, cs, "mu", true); h {
+									continue
+								}
+								// a helper of the memory database that is itself only called with the lock held
+								if depth < 2 && g.Signature.Recv() != nil && typeIs(g.Signature.Recv().Type(), "datatype/neuronjson", "memdb") && byCallers(g, depth+1) {
+									continue
+								}
+								ok2 = false
+							}
+							return sites > 0 && ok2
+						}
+						if byCallers(f, 0) {
+							held = true
+						}
+					}
 				}
 				if reason, ok := r.exceptionFor("R16.2", construct+":under-mu"); ok && !held {
 					r.ok(construct+":under-mu", "exception: "+reason, w.pos(in.Pos()))
